@@ -92,6 +92,7 @@ def decode(data: bytes) -> dict:
         case["stale"] = True          # a socket file left behind at the address by an earlier process (asyncio replaces it)
     case["log_debug"] = d.p(0.12)
     case["port_str"] = case["transport"] == "tcp" and d.p(0.25)
+    case["uni_name"] = d.p(0.25)          # the pool's name is any text
     case["busy"] = d.p(0.35) and not case["cli"]       # the pool has two running tasks all along: clients come and go around them
     if d.p(0.3):
         # keyword arguments the server passes through to asyncio.start_server / start_unix_server
@@ -143,7 +144,7 @@ class C19Engine(Engine):
             del c["events"][i]
             c["stop_at"] = min(c["stop_at"], len(c["events"]))
             out.append(c)
-        for key in ("cli", "dual", "restart", "restart_early", "busy", "log_debug", "port_str"):
+        for key in ("cli", "dual", "restart", "restart_early", "busy", "log_debug", "port_str", "uni_name"):
             if case.get(key):
                 c = copy.deepcopy(case)
                 c[key] = False
@@ -173,7 +174,7 @@ class C19Engine(Engine):
             from asyncio_taskpool.control.server import TCPControlServer, UnixControlServer
             # unique per process and case: several shards open servers on ephemeral ports of the same host at the same time
             C19Engine.counter += 1
-            pname = f"S{os.getpid()}x{C19Engine.counter}"
+            pname = f"S{os.getpid()}x{C19Engine.counter}" + ("-näme-日本" if case.get("uni_name") else "")
             pool = TaskPool(name=pname)
             full = ("TaskPool-" + pname).encode()
             if case.get("busy") and not case.get("cli"):
